@@ -272,8 +272,7 @@ def real_part(thorough, seed):
     cells = real_cells(thorough)
     order = list(cells)
     random.Random(seed).shuffle(order)
-    with ThreadPoolExecutor(10) as ex:
-        results = list(ex.map(real_cell, order))
+    results = par.pmap(real_cell, order, jobs=14)
     viols = []
     unconfirmed = []
     infra = 0
